@@ -43,7 +43,7 @@ def c09(prop, tier):
     bs = []
     for k, n in enumerate([2, 3, 4]):
         names = ['d1', 'd2', 'd3', 'd4'][:n]
-        sims, _ = vlib.tlc_simulate('Isolation.tla', iso_cfg(names, 9), 'C09-sim%d' % n, 60 if thorough else 8, 10, SEED + k)
+        sims, _ = vlib.tlc_simulate('Isolation.tla', iso_cfg(names, 9), 'C09-sim%d' % n, 300 if thorough else 8, 12, SEED + k)
         for b in sims:
             b['dbs'] = names
         bs += sims
